@@ -196,7 +196,26 @@ OnStress ==
   /\ Is("db_stress") /\ Ev.torn = 0 /\ Ev.reads >= 1 /\ Ev.transactions >= 1
   /\ UNCHANGED <<kind, cur, db>> /\ Step
 
-TraceNext == OnCfg \/ OnEndScenario \/ OnWr \/ OnCreate \/ OnState \/ OnCallOther \/ OnReq \/ OnCall \/ OnWire \/ OnCb
+(***************************************************************************)
+(* queue depth (configuration passes through unchanged): with             *)
+(* max_queued_requests = n and a peer that never answers, the request in   *)
+(* flight plus n queued ones are accepted, every further one is refused    *)
+(* with TooManyRequests; each completion still fires exactly once.         *)
+(***************************************************************************)
+PeTooMany == 20
+OnQCall ==
+  /\ Is("q_call") /\ kind = "client_queue"
+  /\ Ev.ret = (IF Ev.k <= Ev.n THEN PeOk ELSE PeTooMany)      \* k = 0 is in flight, k = 1..n are queued
+  /\ UNCHANGED <<kind, cur, db>> /\ Step
+OnQCb ==
+  /\ Is("ffi_cb") /\ kind = "client_queue" /\ Ev.n = 1 /\ Ev.which = "failure"
+  /\ UNCHANGED <<kind, cur, db>> /\ Step
+OnQEnd ==
+  /\ Is("q_end") /\ Ev.all_completed
+  /\ \A i \in 1..Len(Ev.completions) : Ev.completions[i] = 1 /\ Ev.destroys[i] = 1
+  /\ UNCHANGED <<kind, cur, db>> /\ Step
+
+TraceNext == OnQCall \/ OnQCb \/ OnQEnd \/ OnCfg \/ OnEndScenario \/ OnWr \/ OnCreate \/ OnState \/ OnCallOther \/ OnReq \/ OnCall \/ OnWire \/ OnCb
              \/ OnReqEnd \/ OnTxn \/ OnTxnEnd \/ OnDbOp \/ OnDbRead \/ OnStress
 
 TraceSpec == TraceInit /\ [][TraceNext]_vars
